@@ -88,6 +88,17 @@ pub fn run(ctx: &Ctx) -> i32 {
                 }
             }
         }
+        // cursor histories (scans across block edges, seeks, resets, clones, a third of them over a
+        // source whose clones share one file position) judged by C03's model
+        {
+            let layout = super::hist::Layout::new(b.df.as_ref(), b.entries.len());
+            let states = std::sync::Mutex::new(std::collections::HashSet::new());
+            let hashes = std::collections::HashMap::new();
+            for _ in 0..2 {
+                super::c03::random_history_on(ctx, b, &v1, &layout, rng, 120, &states, &hashes);
+                ctx.count("v1_cursor_histories", 1);
+            }
+        }
         let mk = || Cursor::new(&v1[..]);
         let limit = b.entries.len() + 2;
         match super::query::open_cursor(mk()) {
